@@ -789,6 +789,7 @@ func runC01(c *caseWriter) (string, bool, map[string]int) {
 		"{{define \"open\"}}<b {{end}}{{define \"X\"}}{{template \"open\"}}>k</b>{{template \"open\"}}{{.A}}>z</b>{{end}}{{template \"X\" .}}",
 		"<p>k</p><plaintext>", "<b>k</b><xmp>", "<iframe><b>{{.A}}</b></iframe>", "<noscript><p title=\"{{.A}}\">{{.B}}</p></noscript>", "<XMP><i>{{.A}}</i>",
 		"<td{{if .T}}title=\"{{.A}}\"{{end}}>k</td>", "<td{{template \"attr\" .A}}>k</td>{{define \"attr\"}}title=\"{{.}}\"{{end}}", "<script{{if .T}}x{{end}}>x = \"<!--\";</script>",
+		"<script x=\"y\"</script>{{.A}}", "<title x=\"y\"</title>{{.A}}<b>k</b>", "<STYLE media='m'</style >{{.B}}", "x<title autocorrect=\"x {{.S}}.\"x &amp; y</title>",
 		"<!DOCTYPE {{.A}}><p>k</p>", "<!doctype html {{.A}}>k", "<p>k</p><!DOCTYPE html", "<!DOCTYPE html><p>{{.A}}</p>",
 	} {
 		c01Emit(c, t, "", sh, idx, 3)
